@@ -14,6 +14,9 @@ CHECKS = {
  "C12": dict(text="Rejected calls from the same traces as C03: TLC (Trace_Parse.tla) checks 1..10 errors, that every path (recursively through union errors, parent paths prepended) resolves in the logged input or names a missing property of an existing object, that 'received' equals the value at that position, and that the message thrown by parse is the documented one and identical on a second call.",
              ref="4/C12", note="Trusted: TLC, the driver's syntactic tokenisation of path segments; Map keys / Set members that JSON cannot spell are addressed lossily by the implementation and treated as don't-care.",
              tech="TLC-enumerated programs; error-path resolution evaluated by TLC on logged errors"),
+ "C02": dict(text="Same TLC-enumerated programs as C01 restricted to JSON probe documents; the driver prints schema() and schemaWithContext() under three ref-template/container configurations and logs the schemas and exported definitions as data; TLC (Trace_Schema.tla + JsonSchema.tla) evaluates well-formedness against the 2020-12 meta-schema rules for the emitted vocabulary, $ref resolution, and Valid(d, schema) for every document, and relates it to the logged validate() outcome and to StrictMem; non-JSON types must throw in every mode.",
+             ref="4/C02", note="Trusted: TLC, my transcription of JSON Schema (calibrated on every (schema, document) pair against python jsonschema Draft 2020-12; a disagreement is a tool error), python re for the pattern keyword, format read as an assertion of the registered custom formats.",
+             tech="TLC-enumerated programs; logged schemas judged by a TLA+ JSON Schema semantics (calibrated with python jsonschema)"),
 }
 NA = []
 def main():
